@@ -63,9 +63,13 @@ def get_passes():
             if mname not in late:
                 main.append(mname)
 
+    # The last pass contains every enabled mutator, also the specially
+    # configured instance of the first pass: what it proposes (sections of
+    # the top-level assertions only) is not among the proposals of the
+    # default instance.
     return prelude + [
         mutators.get_mutators(main),
-        mutators.get_mutators(late + main),
+        mutators.get_mutators(late + main) + prelude[0][0],
     ]
 
 
